@@ -110,7 +110,7 @@ def job_random(job):
     rng = random.Random(seed)
     calls = drivers.rand_history(rng, nnodes, tmax, length)
     nforks = 6
-    forks = [drivers.rand_add(rng, nnodes, tmax) for _ in range(nforks)] + [drivers.rand_bulk(rng, nnodes, tmax)]
+    forks = [drivers.rand_add(rng, nnodes, tmax) for _ in range(nforks)] + [drivers.rand_bulk(rng, nnodes + 1, tmax) for _ in range(3)]
     return drivers.make_trace(directed, removal, calls, labeling=lab, forks=forks, rng=rng)
 
 
